@@ -1,1 +1,189 @@
-"""rules for c16 (under construction)"""
+"""C16 - field files round-trip and survive interrupted appends (structural clauses: open modes, overwrite guard,
+writer/reader dtype agreement, bounded record reads)."""
+
+import ast
+import re
+
+from ..cfg import FuncCFG, walk_no_nested, ENTRY, EXIT
+from ..model import AnalysisError
+from ..norm import Normalizer
+from ..runner import rule
+from .. import facts
+
+FIO = 'pySDC/helpers/fieldsIO.py'
+LOG = 'pySDC/implementations/hooks/log_solution.py'
+
+
+def _opens(fn):
+    out = []
+    for c in ast.walk(fn):
+        if isinstance(c, ast.Call) and isinstance(c.func, ast.Name) and c.func.id == 'open':
+            mode = c.args[1].value if len(c.args) > 1 and isinstance(c.args[1], ast.Constant) else next((k.value.value for k in c.keywords if k.arg == 'mode' and isinstance(k.value, ast.Constant)), 'r')
+            out.append((c, mode))
+    return out
+
+
+def _methods(repo, rel):
+    m = repo.module(rel)
+    for cn in m.classes:
+        ci = repo.classes[f'{m.name}.{cn}']
+        for name, fn in ci.methods.items():
+            yield ci, name, fn
+    for name, fn in m.functions.items():
+        yield None, name, fn
+
+
+@rule('C16', 'C16.R1', 'open-mode discipline: read-only, append-only, and one truncating open in FieldsIO.initialize; appends only write in record order', floor=12)
+def r1(ctx, R):
+    repo = ctx.repo
+    trunc = []
+    n = 0
+    for ci, name, fn in _methods(repo, FIO):
+        for c, mode in _opens(fn):
+            n += 1
+            q = f'{(ci.name + ".") if ci else ""}{name}'
+            w = f'{FIO}:{q}'
+            R.check(mode in ('rb', 'ab', 'w+b'), f'{q} :: open(.., {mode!r})', w, "mode in {'rb', 'ab', 'w+b'} (no r+b / in-place rewriting)", mode)
+            if 'w' in mode or '+' in mode:
+                trunc.append(q)
+    if n < 7:
+        raise AnalysisError(f'C16.R1: only {n} open() calls found in fieldsIO.py')
+    R.check(trunc == ['FieldsIO.initialize'], 'fieldsIO :: the only truncating / read-write open is in FieldsIO.initialize', FIO, ['FieldsIO.initialize'], trunc)
+    # seek is only used on files opened for reading
+    for ci, name, fn in _methods(repo, FIO):
+        for w_ in walk_no_nested(fn):
+            if isinstance(w_, ast.With):
+                modes = [m for c, m in _opens(w_.items[0].context_expr)] if w_.items else []
+                body_calls = [ast.unparse(c.func) for s in w_.body for c in ast.walk(s) if isinstance(c, ast.Call)]
+                if modes and modes[0] != 'rb':
+                    bad = [c for c in body_calls if c.endswith('.seek') or c.endswith('.truncate') or c.endswith('.write')]
+                    R.check(not bad, f'{ci.name if ci else ""}.{name} :: no seek/truncate/raw write on a file opened {modes[0]!r}', f'{FIO}:{name}', 'only tofile() in record order', bad)
+    # addField: time first, then the field, nothing else
+    fn = repo.func(FIO, 'FieldsIO.addField')
+    w = f'{FIO}:FieldsIO.addField'
+    R.fn(w)
+    cfg = FuncCFG(fn)
+    writes = [(n_, ast.unparse(c.func.value)) for n_ in sorted(cfg.stmt_of) for c in cfg.calls_at(n_) if isinstance(c.func, ast.Attribute) and c.func.attr == 'tofile']
+    ok = [x for _, x in writes] == ['np.array(time, dtype=T_DTYPE)', 'field'] and cfg.dominates(writes[0][0], writes[1][0])
+    R.check(ok, 'FieldsIO.addField :: appends the time stamp, then the field (an interrupted append leaves a strict prefix of one record)', w, ['np.array(time, dtype=T_DTYPE)', 'field'], [x for _, x in writes])
+    asserts = [ast.unparse(s.test) for s in walk_no_nested(fn) if isinstance(s, ast.Assert)]
+    ok = 'field.dtype == self.dtype' in asserts and 'field.size == self.nItems' in asserts and 'self.initialized' in asserts
+    R.check(ok, 'FieldsIO.addField :: dtype and size of the record are asserted before anything is written', w, ['self.initialized', 'field.dtype == self.dtype', 'field.size == self.nItems'], asserts)
+    # MPI open modes
+    fn = repo.func(FIO, 'Rectilinear.MPI_FILE_OPEN')
+    d = [s.value for s in walk_no_nested(fn) if isinstance(s, ast.Assign) and isinstance(s.value, ast.Subscript) and isinstance(s.value.value, ast.Dict)]
+    got = {k.value: ast.unparse(v) for k, v in zip(d[0].value.keys, d[0].value.values)} if d else {}
+    R.check(got == {'r': 'MPI.MODE_RDONLY', 'a': 'MPI.MODE_WRONLY | MPI.MODE_APPEND'}, 'Rectilinear.MPI_FILE_OPEN :: read-only or write-append only', f'{FIO}:Rectilinear.MPI_FILE_OPEN', {'r': 'RDONLY', 'a': 'WRONLY|APPEND'}, got)
+
+
+@rule('C16', 'C16.R2', 'overwrite guard: the truncating open is dominated by the ALLOW_OVERWRITE / isfile test that raises FileExistsError; resuming goes through fromFile', floor=5)
+def r2(ctx, R):
+    repo = ctx.repo
+    fn = repo.func(FIO, 'FieldsIO.initialize')
+    w = f'{FIO}:FieldsIO.initialize'
+    R.fn(w)
+    cfg = FuncCFG(fn)
+    op = [n for n, s in cfg.stmt_of.items() if isinstance(s, ast.With) and any(m == 'w+b' for _, m in _opens(s.items[0].context_expr))]
+    rs = [(n, s) for n, s in cfg.stmt_of.items() if isinstance(s, ast.Raise) and 'FileExistsError' in ast.unparse(s)]
+    test = [n for n, s in cfg.stmt_of.items() if isinstance(s, ast.If) and ast.unparse(s.test) == 'not self.ALLOW_OVERWRITE']
+    ok = len(op) == 1 and len(rs) == 1 and len(test) == 1 and facts.guard_strings(cfg, rs[0][1])[-2:] == ['not self.ALLOW_OVERWRITE', 'os.path.isfile(self.fileName)'] and cfg.dominates(test[0], op[0]) and not cfg.reachable(rs[0][0], op[0])
+    R.check(ok, 'FieldsIO.initialize :: existing file + ALLOW_OVERWRITE False -> FileExistsError before the file is opened for writing', w, 'if not ALLOW_OVERWRITE: if isfile: raise FileExistsError ... open(w+b)', [facts.guard_strings(cfg, s) for _, s in rs])
+    cls = repo.cls(FIO, 'FieldsIO')
+    R.check(ast.unparse(cls.class_assigns.get('ALLOW_OVERWRITE')) == 'False', 'FieldsIO.ALLOW_OVERWRITE :: default is False', FIO, 'False', ast.unparse(cls.class_assigns.get('ALLOW_OVERWRITE')) if cls.class_assigns.get('ALLOW_OVERWRITE') is not None else None)
+    fn = repo.func(FIO, 'Rectilinear.initialize')
+    sup = [c for c in ast.walk(fn) if isinstance(c, ast.Call) and ast.unparse(c.func) == 'super().initialize']
+    R.check(len(sup) == 1, 'Rectilinear.initialize :: reaches the guarded base implementation (root rank)', f'{FIO}:Rectilinear.initialize', 'super().initialize()', len(sup))
+    fn = repo.func(LOG, 'LogToFile.pre_run')
+    w = f'{LOG}:LogToFile.pre_run'
+    cfg = FuncCFG(fn)
+    ff = [(n, s) for n, s in cfg.stmt_of.items() if isinstance(s, ast.Assign) and ast.unparse(s.value) == 'FieldsIO.fromFile(self.filename)']
+    ok = len(ff) == 1 and any('os.path.isfile(self.filename)' in g for g in facts.guard_strings(cfg, ff[0][1])) and not [c for c in ast.walk(fn) if isinstance(c, ast.Call) and ast.unparse(c.func).endswith('.initialize')]
+    R.check(ok, 'LogToFile.pre_run :: an existing file is re-opened through fromFile (never re-initialised by the hook)', w, 'self.outfile = FieldsIO.fromFile(self.filename) under isfile', [ast.unparse(s) for _, s in ff])
+    ci = repo.cls(LOG, 'LogToFile')
+    init = ci.methods['__init__']
+    R.check('FieldsIO.ALLOW_OVERWRITE = self.allow_overwriting' in ast.unparse(init) and ast.unparse(ci.class_assigns.get('allow_overwriting')) == 'False', 'LogToFile :: overwriting is off unless the user enables it', f'{LOG}:LogToFile.__init__', 'allow_overwriting = False', ast.unparse(ci.class_assigns.get('allow_overwriting')) if ci.class_assigns.get('allow_overwriting') is not None else None)
+
+
+def _dtype_runs(seq):
+    out = []
+    for x in seq:
+        if not out or out[-1] != x:
+            out.append(x)
+    return out
+
+
+@rule('C16', 'C16.R3', 'writer/reader agreement: header and record dtype sequences written equal the sequences read back; registry ids unique', floor=10)
+def r3(ctx, R):
+    repo = ctx.repo
+    for cn in ('Scalar', 'Rectilinear'):
+        hi = repo.func(FIO, f'{cn}.hInfos')
+        rh = repo.func(FIO, f'{cn}.readHeader')
+        w = f'{FIO}:{cn}.hInfos/readHeader'
+        R.fn(w)
+        wseq = [ast.unparse(k.value) for c in ast.walk(hi) if isinstance(c, ast.Call) and ast.unparse(c.func) == 'np.array' for k in c.keywords if k.arg == 'dtype']
+        rseq = [ast.unparse(k.value) for c in sorted((c for c in ast.walk(rh) if isinstance(c, ast.Call) and ast.unparse(c.func) == 'np.fromfile'), key=lambda c: (c.lineno, c.col_offset)) for k in c.keywords if k.arg == 'dtype']
+        R.check(_dtype_runs(wseq) == _dtype_runs(rseq) and bool(wseq), f'{cn} :: header dtypes written == header dtypes read (in order)', w, _dtype_runs(wseq), _dtype_runs(rseq))
+    # Rectilinear integer block: nVar, dim, *gridSizes  <->  count=2 then count=dim
+    hi = repo.func(FIO, 'Rectilinear.hInfos')
+    rh = repo.func(FIO, 'Rectilinear.readHeader')
+    first = [c for c in ast.walk(hi) if isinstance(c, ast.Call) and ast.unparse(c.func) == 'np.array' and any(k.arg == 'dtype' and ast.unparse(k.value) == 'np.int32' for k in c.keywords)]
+    okw = len(first) == 1 and ast.unparse(first[0].args[0]) == '[self.nVar, self.dim, *self.gridSizes]'
+    counts = [ast.unparse(k.value) for c in sorted((c for c in ast.walk(rh) if isinstance(c, ast.Call) and ast.unparse(c.func) == 'np.fromfile'), key=lambda c: (c.lineno, c.col_offset)) for k in c.keywords if k.arg == 'count']
+    R.check(okw and counts == ['2', 'dim', 'n'], 'Rectilinear :: integer block (nVar, dim, gridSizes) and one float64 block per axis are read back with the written counts', f'{FIO}:Rectilinear.readHeader', ['2', 'dim', 'n (for n in gridSizes)'], counts)
+    # base header
+    hb = repo.func(FIO, 'FieldsIO.hBase')
+    ff = repo.func(FIO, 'FieldsIO.fromFile')
+    okb = 'np.array([self.sID, DTYPES_AVAIL[self.dtype]], dtype=H_DTYPE)' in ast.unparse(hb) and 'np.fromfile(f, dtype=H_DTYPE, count=2)' in ast.unparse(ff)
+    R.check(okb, 'FieldsIO :: base header = 2 x H_DTYPE (struct id, dtype id), written by hBase, read by fromFile', f'{FIO}:FieldsIO.hBase/fromFile', '2 entries of H_DTYPE both sides', 'ok' if okb else 'mismatch')
+    ini = repo.func(FIO, 'FieldsIO.initialize')
+    cfg = FuncCFG(ini)
+    wr = [ast.unparse(c.func.value) for n in sorted(cfg.stmt_of) for c in cfg.calls_at(n) if isinstance(c.func, ast.Attribute) and c.func.attr == 'tofile']
+    R.check(wr == ['self.hBase', 'array'], 'FieldsIO.initialize :: writes hBase, then every hInfos array (the order readHeader expects)', f'{FIO}:FieldsIO.initialize', ['self.hBase', 'array (for array in self.hInfos)'], wr)
+    # records
+    for meth, want in (('readField', [('T_DTYPE', '1'), ('self.dtype', 'self.nItems')]), ('times', [('T_DTYPE', '1')]), ('time', [('T_DTYPE', '1')])):
+        fn = repo.func(FIO, f'FieldsIO.{meth}')
+        got = []
+        for c in sorted((c for c in ast.walk(fn) if isinstance(c, ast.Call) and ast.unparse(c.func) == 'np.fromfile'), key=lambda c: (c.lineno, c.col_offset)):
+            kw = {k.arg: ast.unparse(k.value) for k in c.keywords}
+            got.append((kw.get('dtype'), kw.get('count')))
+        R.check(got == want, f'FieldsIO.{meth} :: reads the record with the dtypes addField wrote (time: T_DTYPE x1, field: self.dtype x nItems)', f'{FIO}:FieldsIO.{meth}', want, got)
+    cls = repo.cls(FIO, 'FieldsIO')
+    R.check(ast.unparse(cls.class_assigns.get('tSize')) == 'T_DTYPE().itemsize', 'FieldsIO.tSize :: derived from the same T_DTYPE', FIO, 'T_DTYPE().itemsize', ast.unparse(cls.class_assigns.get('tSize')) if cls.class_assigns.get('tSize') is not None else None)
+    reg = repo.func(FIO, 'FieldsIO.register')
+    asserts = [ast.unparse(s.test) for s in ast.walk(reg) if isinstance(s, ast.Assert)]
+    R.check('sID not in cls.STRUCTS' in asserts, 'FieldsIO.register :: structure ids are unique', f'{FIO}:FieldsIO.register', 'assert sID not in cls.STRUCTS', asserts)
+
+
+@rule('C16', 'C16.R4', 'only complete records are reported: nFields is the floor of (fileSize - hSize) / record size and every record read is bounded by it', floor=9)
+def r4(ctx, R):
+    repo = ctx.repo
+    fn = repo.func(FIO, 'FieldsIO.nFields')
+    ret = [ast.unparse(s.value) for s in walk_no_nested(fn) if isinstance(s, ast.Return)]
+    R.check(ret == ['int((self.fileSize - self.hSize) // (self.tSize + self.fSize))'], 'FieldsIO.nFields :: floor division by the full record size', f'{FIO}:FieldsIO.nFields', 'int((fileSize - hSize) // (tSize + fSize))', ret)
+    fs = repo.func(FIO, 'FieldsIO.fSize')
+    R.check([ast.unparse(s.value) for s in walk_no_nested(fs) if isinstance(s, ast.Return)] == ['self.nItems * self.itemSize'], 'FieldsIO.fSize :: nItems * itemSize', f'{FIO}:FieldsIO.fSize', 'self.nItems * self.itemSize', 'see source')
+    hs = repo.func(FIO, 'FieldsIO.hSize')
+    R.check([ast.unparse(s.value) for s in walk_no_nested(hs) if isinstance(s, ast.Return)] == ['self.hBase.nbytes + sum((hInfo.nbytes for hInfo in self.hInfos))'], 'FieldsIO.hSize :: bytes of exactly what initialize wrote', f'{FIO}:FieldsIO.hSize', 'hBase.nbytes + sum(hInfo.nbytes)', 'see source')
+    fi = repo.func(FIO, 'FieldsIO.formatIndex')
+    w = f'{FIO}:FieldsIO.formatIndex'
+    cfg = FuncCFG(fi)
+    asserts = [(n, ast.unparse(s.test)) for n, s in cfg.stmt_of.items() if isinstance(s, ast.Assert)]
+    rets = [n for n, s in cfg.stmt_of.items() if isinstance(s, ast.Return)]
+    ok = sorted(t for _, t in asserts) == ['idx < nFields', 'idx >= 0'] and all(cfg.dominates(n, r) for n, _ in asserts for r in rets)
+    nf = [s for s in walk_no_nested(fi) if isinstance(s, ast.Assign) and ast.unparse(s.targets[0]) == 'nFields' and ast.unparse(s.value) == 'self.nFields']
+    R.check(ok and len(nf) == 1, 'FieldsIO.formatIndex :: 0 <= idx < nFields asserted (after mapping negative indices) before the index is returned', w, ['idx < nFields', 'idx >= 0'], [t for _, t in asserts])
+    for cn, meth in (('FieldsIO', 'time'), ('FieldsIO', 'readField'), ('Rectilinear', 'readField')):
+        fn = repo.func(FIO, f'{cn}.{meth}')
+        w = f'{FIO}:{cn}.{meth}'
+        cfg = FuncCFG(fn)
+        fmt = [n for n, s in cfg.stmt_of.items() if isinstance(s, ast.Assign) and ast.unparse(s.value) == 'self.formatIndex(idx)' and ast.unparse(s.targets[0]) == 'idx']
+        off = [n for n, s in cfg.stmt_of.items() if isinstance(s, ast.Assign) and ast.unparse(s.targets[0]) == 'offset' and ast.unparse(s.value) == 'self.hSize + idx * (self.tSize + self.fSize)']
+        reads = [n for n in cfg.stmt_of if any(ast.unparse(c.func) in ('np.fromfile', 'self.MPI_READ_AT_ALL') for c in cfg.calls_at(n))]
+        ok = len(fmt) == 1 and len(off) == 1 and cfg.dominates(fmt[0], off[0]) and all(cfg.dominates(off[0], r) for r in reads) and bool(reads)
+        R.check(ok, f'{cn}.{meth} :: index checked by formatIndex, offset = hSize + idx * record size, before any read', w, 'idx = formatIndex(idx); offset = hSize + idx*(tSize+fSize); read', f'{len(fmt)} check(s), {len(off)} offset(s), {len(reads)} read(s)')
+    fn = repo.func(FIO, 'FieldsIO.times')
+    loops = [ast.unparse(l.iter) for l in walk_no_nested(fn) if isinstance(l, ast.For)]
+    R.check(loops == ['range(self.nFields)'], 'FieldsIO.times :: iterates over complete records only', f'{FIO}:FieldsIO.times', ['range(self.nFields)'], loops)
+    fn = repo.func(FIO, 'Rectilinear.toVTR')
+    loops = [ast.unparse(l.iter) for l in walk_no_nested(fn) if isinstance(l, ast.For) and 'nFields' in ast.unparse(l.iter)]
+    R.check(loops == ['range(self.nFields)'], 'Rectilinear.toVTR :: iterates over complete records only', f'{FIO}:Rectilinear.toVTR', ['range(self.nFields)'], loops)
